@@ -264,8 +264,15 @@ pub fn run_case(ctx: &mut Ctx, c: &Case) {
             let tag = format!("ids{ids:?}:empty{empty_blocks}:layers{}", p.layers);
             let mut rng = Rng::new(*enc_seed);
             // (i) per-file reader, with any one recipient key
+            // (one case in two: among candidate keys that are not recipients, before and after it - FORMAT.md lets a
+            // reader try each of its keys against each recipient slot)
             let key_idx = rng.usize_below(sks.len());
-            let r = guarded(|| drv::read_all(&raw, &[sks[key_idx]], &mut rng).and_then(|got| drv::compare_maps(&expected, &got)));
+            let mut cand = vec![sks[key_idx]];
+            if p.layers & 1 != 0 && enc_seed % 2 == 1 {
+                cand = vec![secret_key(p.seed ^ 0x57A4, 200), sks[key_idx], secret_key(p.seed ^ 0x57A4, 201)];
+                ctx.count("recipient_key_among_stranger_candidates");
+            }
+            let r = guarded(|| drv::read_all(&raw, &cand, &mut rng).and_then(|got| drv::compare_maps(&expected, &got)));
             match r {
                 Ok(Ok(())) => ctx.count("held:get_file"),
                 Ok(Err(e)) => {
